@@ -373,6 +373,70 @@ func checkText(stream string, text []byte, expected string, cmpModel bool, rng *
 	}
 }
 
+// cornerTexts: small schemas around constructs that are rare in the fixtures.
+func cornerTexts() []string {
+	long := func(n int) string { return strings.Repeat("long comment text ", n/18+1)[:n] }
+	out := []string{
+		// attributes on union branches
+		"union U {\n\t1 -> struct A {\n\t\tint32 x;\n\t}\n\t[deprecated(\"use A\")]\n\t2 -> struct B {\n\t}\n\t[deprecated(\"gone\")]\n\t3 -> message C {\n\t\t1 -> string s;\n\t}\n}\n",
+		"// doc of U\nunion U {\n\t// doc of A\n\t[deprecated(\"a\")]\n\t1 -> struct A { int32 x; }\n\t/* block doc of B */\n\t[deprecated(\"b\")]\n\t2 -> message B { 1 -> int32 y; }\n}\n",
+		// multi-line block comments in every kind of body, and in the bodies of union members
+		"enum E {\n\t/* first line\n\t   second line */\n\tA = 1;\n}\nstruct S {\n\t/* first line\n\t   second line */\n\tint32 x;\n}\nmessage M {\n\t/* first line\n\t   second line */\n\t1 -> int32 x;\n}\n",
+		"union U {\n\t1 -> struct A {\n\t\t/* first line\n\t\t   second line */\n\t\tint32 x;\n\t}\n\t2 -> message B {\n\t\t/* first line\n\t\t   second line\n\t\t   third line */\n\t\t1 -> int32 y;\n\t}\n}\n",
+		"/* top\n   level\n   block */\nstruct S {\n\tint32 x; /* after\n field */\n\tint32 y;\n}\n",
+		// [flags] expressions with unbalanced parentheses, and the attribute on a line of its own under a doc comment
+		"[flags]\nenum E {\n\tA = (1;\n}\n",
+		"[flags]\nenum E {\n\tA = 1;\n\tB = ((A | 2);\n}\n",
+		"[flags]\nenum E {\n\tA = 1);\n}\n",
+		"[flags]\nenum E {\n\tA = (1 << (2);\n\tB = ();\n}\n",
+		"// what a caller may do\n[flags]\nenum Perm {\n\tRead = 1;\n\tWrite = 2;\n}\n",
+		"/* what a caller may do */\n[flags]\nenum Perm : uint8 {\n\tRead = 1;\n}\n// next\n[opcode(0x1)]\nstruct S {\n}\n",
+		// signed shifts and wide values in [flags]
+		"[flags]\nenum Mask : int64 {\n\tLow = -16;\n\tShifted = Low >> 2;\n\tLiteral = -64 >> 1;\n}\n[flags]\nenum M32 : int32 {\n\tLow = -16;\n\tShifted = Low >> 2;\n}\n",
+	}
+	for _, n := range []int{4000, 4090, 4097, 4200, 9000} {
+		out = append(out,
+			"// "+long(n)+"\nstruct S {\n\tint32 x;\n}\nstruct T {\n\tS s;\n}\n",
+			"struct S {\n\tint32 x; // "+long(n)+"\n\t// "+long(n/2)+"\n\tint32 y;\n}\nmessage M {\n\t1 -> int32 z;\n}\n",
+			"/* "+long(n)+" */\nenum E {\n\tA = 1;\n}\n")
+	}
+	return out
+}
+
+// bigInput: a schema of more than 1 MiB made of one-line structs. ReadFile must read all of them (and a definition
+// appended at the very end), and a reader that fails far into the input must be reported.
+func bigInput(rng *rand.Rand) {
+	var b bytes.Buffer
+	n := 0
+	for b.Len() < 1<<20+200000 {
+		fmt.Fprintf(&b, "struct S%06d { int32 a; }\n", n)
+		n++
+	}
+	b.WriteString("struct LastOne { int32 a; }\n")
+	n++
+	text := b.Bytes()
+	label := []byte(fmt.Sprintf("%d one-line structs, %d bytes (S000000 .. LastOne)", n, len(text)))
+	o := realRead(bytes.NewReader(text))
+	count("C10", "big/"+o.class, "big")
+	switch {
+	case o.class == "panic" || o.class == "hang":
+		fail("C10", o.class, "big", label, "ReadFile", "returns", o.class+": "+o.msg, "", "ReadFile on an input beyond 1 MiB", "")
+	case o.class != "ok":
+		fail("C10", "oracle", "big", label, "ReadFile", "ok", o.short(), "", "a well-formed input beyond 1 MiB is rejected", "")
+	case len(o.file.Structs) != n || !hasDef(o.file, "LastOne"):
+		fail("C10", "oracle", "big", label, "ReadFile", fmt.Sprintf("%d structs, the last one LastOne", n), fmt.Sprintf("%d structs, LastOne present: %v", len(o.file.Structs), hasDef(o.file, "LastOne")), "", "part of an input beyond 1 MiB was silently dropped", "")
+	}
+	for _, off := range []int{1 << 20, 1<<20 + 32, 1<<20 + 1 + rng.Intn(100000), len(text) - 5} {
+		for _, e := range []error{errInjected, io.ErrUnexpectedEOF} {
+			o := realRead(&failReader{data: text[:off], err: e})
+			count("C10", "big/readerfail/"+o.class, fmt.Sprint("big", off, e))
+			if o.class != "err" {
+				fail("C10", "oracle", "big", label, fmt.Sprintf("ReadFile(reader failing with %v after %d bytes)", e, off), "error", o.class, "", "a reader failure far into the input was not reported", "")
+			}
+		}
+	}
+}
+
 func firstDiff(a, b string) string {
 	x, y := strings.Fields(a), strings.Fields(b)
 	i := 0
@@ -652,6 +716,17 @@ func main() {
 		}
 		checkText("mutated", t, "", isASCII(t), rng)
 	}
+	// 4b. hand-written corners: constructs that the fixtures and the generator rarely combine, each also with CRLF
+	// line ends; very long comment lines (beyond bufio's 4096-byte buffer)
+	for _, c := range cornerTexts() {
+		checkText("corners", []byte(c), "", isASCII([]byte(c)), rng)
+		if strings.Contains(c, "\n") && !strings.Contains(c, "\r") {
+			crlf := strings.ReplaceAll(c, "\n", "\r\n")
+			checkText("corners", []byte(crlf), "", true, rng)
+		}
+	}
+	// 4c. inputs beyond 1 MiB (oracle only: the number of definitions read, reader failures far into the input)
+	bigInput(rng)
 	// 5. reader failures at sampled offsets of valid texts
 	var valid [][]byte
 	// generated texts first (they carry CRLF line ends, trailing blanks and same-line layouts), then fixtures
